@@ -198,3 +198,56 @@ func H_C06_initiator() {
 		zz.Assert(!f.s.IsLogged(), "C06: a damaged Logon answer logged the initiator on")
 	}
 }
+
+// H_C06_afterlogout: once a session has been logged out it is logged on again only through a new
+// Logon, whatever happens in between. History: logon, then the logout exchange (ended by the peer:
+// how=0, or locally with the peer's answer: how=1, or locally and never answered: how=2), then the
+// silence timer expires (the session probes the peer), then one inbound message of any kind that
+// is not a Logon. params: [role, how, inbound kind, damage]
+func H_C06_afterlogout() {
+	zz.TimerStub(true)
+	role, how := zz.Param(0), zz.Param(1)
+	zz.Class("how=" + strconv.Itoa(how) + "/kind=" + strconv.Itoa(zz.Param(2)) + "/role=" + strconv.Itoa(role))
+	f := loggedOn(role, memory.NewStorage())
+	zz.Assume(f.s.IsLogged())
+	_ = f.h.VerifOut()
+	zz.Yield()
+	peer, me := "CLI", "SRV"
+	if role == 1 {
+		peer, me = "SRV", "CLI"
+	}
+	lo := fixgen.CreateLogout()
+	setHdr(lo.Header(), peer, me, 2)
+	switch how {
+	case 0:
+		_ = f.serve(wire(lo))
+	case 1:
+		_ = f.s.Logout()
+		_ = f.serve(wire(lo))
+	default:
+		_ = f.s.Logout()
+	}
+	_ = f.h.VerifOut()
+	zz.Assert(!f.s.IsLogged(), "C15: still logged on after the logout")
+	for k := range f.events {
+		delete(f.events, k)
+	}
+	// the peer stays silent for a whole period: the session probes it
+	zz.FireTimer(0)
+	zz.Yield()
+	_ = f.h.VerifOut()
+	zz.Assert(!f.s.IsLogged(), "C06: a silence-timer expiry logs a logged-out session on")
+	kind := zz.Param(2)
+	zz.Assume(kind != mLogon)
+	b, numTag := mkInbound(kind, peer, me, 3)
+	if (zz.Param(3) == dmgNumField || zz.Param(3) == dmgNumEmpty || zz.Param(3) == dmgNumHuge) && numTag == "" {
+		zz.Assume(false)
+	}
+	if how == 2 && kind == mLogout && zz.Param(3) == dmgNone {
+		zz.Assume(false) // that is the late answer: H_C15_logout scenario 5
+	}
+	_ = f.serve(applyDamage(b, zz.Param(3), numTag))
+	zz.Reach("served")
+	zz.Assert(!f.s.IsLogged(), "C06: a logged-out session reports itself logged on again without a new Logon")
+	zz.Assert(f.events[utils.EventLogon] == 0, "C06: the logon event is raised without a new Logon")
+}
